@@ -420,7 +420,7 @@ def run_case(case):
             return fail(res, 'scalar', f'array result differs from elementwise secure scalars: {msg}',
                         expected=short(sc), observed=short(plain))
     if after:
-        for nm, arr in inputs.items():
+        for nm, arr in list(inputs.items()) + list(plan.get('derived', {}).items()):
             if after.get(nm) is None:
                 continue
             msg = same(kind, after[nm], fmod(kind, arr) if kind not in ('fxp',) else arr, 0.0)
